@@ -380,7 +380,7 @@ def _noop():
     pass
 
 
-HANDLE_KINDS = ["file", "unbuffered", "gzip", "bz2", "lzma", "buffered-16"]
+HANDLE_KINDS = ["file", "unbuffered", "gzip", "bz2", "lzma", "buffered-16", "mmap"]
 _handle = {"kind": None, "dir": None, "opened": [], "n": 0}
 
 
@@ -417,6 +417,14 @@ def _bio(raw):
         fh = lzma.open(path, "rb")
     elif kind == "buffered-16":
         fh = io.BufferedReader(io.BytesIO(raw), buffer_size=16)
+    elif kind == "mmap":
+        # a read-only memory map of the image file (its seek() returns None before Python 3.13)
+        import mmap
+
+        with open(path, "wb") as f:
+            f.write(raw)
+        with open(path, "rb") as f:
+            fh = mmap.mmap(f.fileno(), 0, access=mmap.ACCESS_READ)
     else:
         raise ValueError(kind)
     _handle["opened"].append(fh)
